@@ -21,7 +21,7 @@ theorem hist_mono_step (hs : Step s t s') : ∀ e, e ∈ s.hist → e ∈ s'.his
 theorem new_addRet (hs : Step s t s') {t' : Tid} {v : Elem} {r : Nat} (hm : Ev.addRet t' v r ∈ s'.hist) :
     Ev.addRet t' v r ∈ s.hist ∨
     (t' = t ∧ addVal (s.thr t) = some v ∧ s'.thr t = .idle ∧ s'.hist = .addRet t v r :: s.hist) := by
-  cases hs <;> simp at hm <;> grind [addVal]
+  cases hs <;> (try simp at hm) <;> grind [addVal, setPc_thr, setPc_hist]
 
 /-- an `add` in progress stays an `add` of the same element until it completes (or panics on
 wraparound, which the invariant excludes) -/
@@ -29,7 +29,7 @@ theorem addVal_step (hs : Step s t s') {v : Elem} (hv : addVal (s.thr t) = some 
     (addVal (s'.thr t) = some v ∧ s'.hist = s.hist) ∨
     (s'.thr t = .idle ∧ ∃ r, s'.hist = .addRet t v r :: s.hist) ∨
     (s'.thr t = .panicked ∧ s'.hist = s.hist) := by
-  cases hs <;> simp at * <;> grind [addVal]
+  cases hs <;> (try simp at *) <;> grind [addVal, setPc_thr, setPc_hist]
 
 /-- a thread that is not adding does not start adding by a `.step` -/
 theorem addVal_none_step (hs : step s t .step = some s') (hv : addVal (s.thr t) = none) :
